@@ -949,11 +949,21 @@ func c04Encoder(c *Ctx, r *Report) {
 // (same path analysis as C11-R1), the only exception being the chain-end guard of DecodeChained,
 // which tests for the read-size sentinel and therefore cannot match an IntegrityError.
 func c04VerdictPropagation(c *Ctx, r *Report) {
+	sharedDecode(c, r) // no entry point has a private reading path that skips the verdicts
+	errorTypePropagates(c, r, "C04-R7-verdict-propagates", "IntegrityError", 2, 5,
+		"which can report a checksum failure", "a checksum verdict", "a file with a mismatching checksum is accepted by %s while other entry points reject it")
+}
+
+// errorTypePropagates: the functions that create an error of the named type, and every module
+// function calling one, are its carriers; at each call of a carrier in the reachable decoder the
+// error is returned on every path (the C11 path analysis), the one exception being DecodeChained's
+// read-size sentinel guard.
+func errorTypePropagates(c *Ctx, r *Report, rule, typeName string, floorOrigins, floorCalls int, what, whatShort, consequence string) {
 	roots, _ := c.rootFuncs(decodeRoots)
 	ri := c.reach(roots)
-	ieObj := c.fit.Types.Scope().Lookup("IntegrityError")
+	ieObj := c.fit.Types.Scope().Lookup(typeName)
 	if ieObj == nil {
-		r.fail("C04-R7-verdict-propagates", "IntegrityError", "", "type not found")
+		r.fail(rule, typeName, "", "type not found")
 		return
 	}
 	isIE := func(t types.Type) bool { return types.Identical(t, ieObj.Type()) }
@@ -1041,29 +1051,33 @@ func c04VerdictPropagation(c *Ctx, r *Report) {
 			pos := c.pos(s.call.Pos())
 			res := fn.Signature.Results()
 			if res.Len() == 0 || !isErrorType(res.At(res.Len()-1).Type()) {
-				r.fail("C04-R7-verdict-propagates", key, pos, fn.Name()+" calls "+f.Name()+", which can report a checksum failure, but cannot return an error itself")
+				r.fail(rule, key, pos, fn.Name()+" calls "+f.Name()+", "+what+", but cannot return an error itself")
 				continue
 			}
 			fr := nf.analyseSite(s)
+			if fr.overwritten {
+				r.fail(rule, key, pos, fmt.Sprintf("the error of %s (%s) is dropped when the loop in %s comes round: the call is made again on a path on which its previous error was never returned: "+consequence, f.Name(), what, fn.Name(), fn.Name()))
+				continue
+			}
 			if len(fr.swallows) == 0 {
-				r.ok("C04-R7-verdict-propagates", key, pos, "the verdict of "+f.Name()+" is returned on every path")
+				r.ok(rule, key, pos, "the error of "+f.Name()+" is returned on every path")
 				continue
 			}
 			if fn.Name() == "DecodeChained" {
 				ok, why := c11ChainSwallow(c, fn, s, fr.swallows)
-				r.check(ok, "C04-R7-verdict-propagates", key, pos, "only the read-size sentinel ends a chain silently: "+why, "DecodeChained can drop a checksum verdict: "+why)
+				r.check(ok, rule, key, pos, "only the read-size sentinel ends a chain silently: "+why, "DecodeChained can drop "+whatShort+": "+why)
 				continue
 			}
 			var where []string
 			for _, sw := range fr.swallows {
 				where = append(where, describeReturn(c, sw))
 			}
-			r.fail("C04-R7-verdict-propagates", key, pos, fmt.Sprintf("the error of %s (which reports header/file checksum failures) is not returned on a path to %s: a file with a mismatching checksum is accepted by %s while other entry points reject it", f.Name(), strings.Join(where, ", "), fn.Name()))
+			r.fail(rule, key, pos, fmt.Sprintf("the error of %s (%s) is not returned on a path to %s: "+consequence, f.Name(), what, strings.Join(where, ", "), fn.Name()))
 		}
 	}
-	r.set("verdict_origins", nOrigins)
-	r.need("functions creating an IntegrityError", nOrigins, 2)
-	r.need("calls of verdict carriers", n, 5)
+	r.set(typeName+"_origins", nOrigins)
+	r.need("functions creating a "+typeName, nOrigins, floorOrigins)
+	r.need("calls of "+typeName+" carriers", n, floorCalls)
 }
 
 // encodePrivateBuffer: the record buffer is private to one Encode call: nothing Encode reaches uses
